@@ -154,6 +154,13 @@ pub fn run_entry(ctx: &Ctx, e: &Entry, agg: &mut Agg) {
     let f = forms_string(m, &d.ty, None);
     let kind = if f.is_empty() { type_kind(m, &d.ty) } else { f };
     let locate = std::env::var("VERIF_LOCATE").is_ok();
+    // the first error value of a process loads the symbol tables for its backtrace (tens of MiB, once):
+    // provoke one before anything is measured
+    static WARM: std::sync::Once = std::sync::Once::new();
+    WARM.call_once(|| {
+        let _ = catch(|| proto_ops(e).read(&[0xff, 0xff, 0xff]));
+        let _ = catch(|| proto_ops(e).read(&[0x0a, 0x7f]));
+    });
     let mut go = |input: &[u8], what: &str, agg: &mut Agg| {
         if locate {
             println!("T {}", input.iter().map(|b| format!("{b:02x}")).collect::<String>());
